@@ -10,6 +10,8 @@ c_AllKinds == {"AddData", "RemoveData", "ApplySubsetState", "ApplyROI"}
 c_ApplyOnly == {"ApplySubsetState"}
 c_ApplyAdd == {"AddData", "ApplySubsetState"}
 c_ModeXN == {"Xor", "New"}
+c_ModeX == {"Xor"}
+c_ApplyAddRemove == {"AddData", "RemoveData", "ApplySubsetState"}
 D8 == TLCGet("level") <= 9
 sview == svars
 D4 == TLCGet("level") <= 5
